@@ -1,1 +1,54 @@
-// placeholder
+//! `vsv` — a small IEEE 1800-2017 simulator for the SystemVerilog subset that
+//! veryl's emitter produces: lexer, recursive-descent parser, elaborator
+//! (parameters, generate, hierarchy, interfaces) and an event-driven
+//! simulator with 4-state values (`vbv`), context-determined expression
+//! widths (11.6–11.8), blocking / non-blocking assignment with an NBA region,
+//! `always_comb` / `assign` fix-point settling and `always_ff` edge detection.
+//!
+//! Whatever it does not model is reported as [`Unsupported`] — never guessed.
+
+pub mod ast;
+pub mod elab;
+mod elab_expr;
+mod elab_stmt;
+pub mod exec;
+pub mod ir;
+pub mod lex;
+pub mod parse;
+pub mod sim;
+
+pub use sim::{Pins, Sim};
+pub use vbv::{Bit, Bv};
+
+#[derive(Clone, Debug, PartialEq, Eq)]
+pub struct Unsupported {
+    pub reason: String,
+}
+
+impl Unsupported {
+    pub fn new(reason: impl Into<String>) -> Unsupported {
+        Unsupported { reason: reason.into() }
+    }
+    /// Reason with numbers and quoted names removed: a class for histograms.
+    pub fn class(&self) -> String {
+        let mut out = String::new();
+        let mut in_quote = false;
+        for c in self.reason.chars() {
+            if c == '"' {
+                in_quote = !in_quote;
+                continue;
+            }
+            if in_quote || c.is_ascii_digit() {
+                continue;
+            }
+            out.push(c);
+        }
+        out.split_whitespace().take(8).collect::<Vec<_>>().join(" ")
+    }
+}
+
+impl std::fmt::Display for Unsupported {
+    fn fmt(&self, f: &mut std::fmt::Formatter<'_>) -> std::fmt::Result {
+        write!(f, "unsupported: {}", self.reason)
+    }
+}
